@@ -39,6 +39,16 @@ CHECKS = {
          "Macro definitions (plain, two-parameter, conditional, list, optional, recursive tier) used with literal/nonterminal/group/repeat/nested arguments; language and values (Vec order, Option, tuple shapes) are compared."),
  "C18": ("exploration", "3/C18", "runtime monitor on process status + stderr of the real CLI (debug build: debug_assert/overflow checks active) over mutated corpus grammars and targeted near-valid producers",
          "Token-level and byte-level mutants of every .lalrpop file in the repository and of generator output, targeted producers for attribute/precedence/macro/pattern/match-block corner cases, and conflict-rich grammars that exercise the error-report generator; any exit other than 0/1, any panic or abort is a violation keyed by source location."),
+ "C20": ("exploration", "3/C20", "differential runtime monitor: byte equality of outputs across separate processes (fresh hash seeds), CLI vs process_file vs process_dir batches with varying composition and walk order",
+         "Every grammar of the corpus is generated in 8 (quick) / 16 (thorough) independent processes, through the API, and inside batches with sub-directories and permuted names; SHA-256 of the outputs must coincide."),
+ "C21": ("exploration", "3/C21", "runtime monitor: model of the output directory checked after every build step of random edit/damage/build histories",
+         "Histories of 10-40 steps (edit, revert, touch, break, delete output, damage version/hash header, foreign output, builds through the CLI and process_dir); after each build every output must equal a forced generation of the current text, current outputs keep inode+mtime, failing grammars have no output."),
+ "C22": ("fault_enumeration", "3/C22", "fault injection on the real binary: SIGKILL at the k-th file-affecting syscall (strace inject) and RLIMIT_FSIZE at byte offsets (SIGXFSZ and EFBIG), followed by a non-forced rebuild and byte comparison",
+         "Every syscall boundary of every file-affecting syscall family and (thorough: every) byte offset of the output are used as crash points, from three previous-output states, with and without --report; the next non-forced build must reproduce the clean bytes."),
+ "C23": ("exploration", "3/C23", "runtime monitor: file-system snapshot diff vs a path calculator written from the statement, over random directory trees and configurations",
+         "Trees with nesting, src components, symlinked files/directories, dangling links, odd names; configurations CLI/-o, process_dir/process/process_current_dir/process_file, OUT_DIR conventions, in-source; expected file set, contents, error status and rerun directives are compared."),
+ "C24": ("translation_validation", "3/C24", "translation validation: proc_macro2 token streams of the output under each option combination vs the default output",
+         "Each accepted grammar is generated under all 8 combinations of --comments/--no-whitespace/--report (and through the setters for a slice); token streams (operators re-glued by maximal munch) must be identical."),
 }
 checks = []
 for p in props:
